@@ -13,6 +13,7 @@ This private submodule is *not* intended for importation by downstream callers.
 
 # ....................{ IMPORTS                            }....................
 from beartype._check.cls.hint.hintsane import (
+    HINT_IGNORABLE,
     HINT_SANE_IGNORABLE,
     HINT_SANE_RECURSIVE,
     HintOrSane,
@@ -288,8 +289,17 @@ def reduce_hint_pep484604_union(
         #
         # If metadata encapsulates the reduction of this child hint...
         elif isinstance(hint_child_sane, HintSane):
+            # If this child hint is ignorable (e.g., a child hint overridden to
+            # "typing.Any" by the "hint_overrides" option, whose reduction
+            # preserves the metadata recording that override rather than
+            # reducing to the "HINT_SANE_IGNORABLE" singleton tested above),
+            # reduce this entire union to that singleton for the same reason.
+            if hint_child_sane.hint is HINT_IGNORABLE:
+                return HINT_SANE_IGNORABLE
+            # Else, this child hint is unignorable.
+            #
             # If either...
-            if (
+            elif (
                 # This union has no parent and is thus a root hint *OR*...
                 hint_parent_sane is None or
                 # This union has a parent and is thus a child hint *AND* this
